@@ -167,6 +167,19 @@ CLAIMED = {
         "has one writer. Four defects repaired (threshold ignored, 'sh:' prefix leaking into ShExC, duplicated examples, None stem).",
    technique="Lean 4 proof (refinement of the memoising object to the pure pipeline; buffer invariant) + differential correspondence + exhaustive short call sequences",
    design="5/C18"),
+ "C19": dict(
+   text="Proof (of what the model can carry): the set of empty shapes is only asked for membership - a removal round gives the same shapes for "
+        "any two collections with the same members, hence for every iteration order of the set; the random branch of the shapes-prefix choice "
+        "is reachable only when all four default prefixes are taken; every count and class size is invariant under permutation of the "
+        "arriving triples (node lists that pass through a set, hash-ordered iteration). Tie: ordered comparison of implementation and model on "
+        "the NT channel. Search: every job (8 delivery channels incl. the in-process fake endpoint, class targets / all classes / shape maps "
+        "with FOCUS and SPARQL selectors, 0-3 default prefixes taken) run in 4 (thorough: 12) fresh interpreter processes with different "
+        "PYTHONHASHSEED; ShExC compared byte for byte, SHACL as canonical graphs, number of endpoint queries.",
+   note="Partial: determinism of the interpreter (hash order of sets / rdflib stores) is runtime behaviour that the model cannot exhibit; the "
+        "theorems show the model's result cannot depend on it, the subprocess search decides the implementation. Finding F-C19-1 (rdflib's random "
+        "blank-node identifiers). One defect repaired (hash-ordered iteration of rdflib graphs).",
+   technique="Lean 4 proof (order-independence lemmas, prefix choice) + differential correspondence + multi-process replay under different hash seeds",
+   design="5/C19"),
 }
 PENDING_REASON = "check not built yet (work in progress; see DESIGN.md section 9 for the build order)"
 
